@@ -328,4 +328,145 @@ theorem pdfOf_spec (R : Nat) (syms : List Nat) (bg : List Rat) (data : List (Lis
     have := hinv'.supp2 j (by simpa using hj)
     exact this
 
+/-! ### the reverse cumulative sum -/
+
+theorem min1_of_le_one {x : Rat} (h : x ≤ 1) : (Scalar.min1 x : Rat) = x := by
+  rw [min1_rat]
+  by_cases hx : x < 1
+  · rw [if_pos hx]
+  · rw [if_neg hx]; linarith
+
+theorem sfLoop_succ (n : Nat) (st : SfState Rat) : sfLoop (n + 1) st = sfLoop n (sfStep n st) := rfl
+
+/-- The loop `for i in (0..=len-2).rev()` turns a density `p` (non-negative, total mass ≤ 1) into its
+    tail sums `G`, keeps `min_score` at or below every index carrying mass, and keeps both scores
+    inside the table. -/
+theorem sfLoop_spec (p G : Nat → Rat) (size : Nat)
+    (hp : ∀ j, 0 ≤ p j) (hG : ∀ j, G j = p j + G (j + 1)) (hG1 : ∀ j, G j ≤ 1) :
+    ∀ (n : Nat) (st : SfState Rat), st.sf.size = size → n + 1 ≤ size →
+      (∀ j, n ≤ j → j < size → vget st.sf j = G j) →
+      (∀ j, j < n → vget st.sf j = p j) →
+      (0 ≤ st.minScore ∧ st.minScore + 1 < size ∧
+        ∀ j : Nat, n ≤ j → (j : Int) < st.minScore → p j = 0) →
+      (0 ≤ st.maxScore ∧ st.maxScore < size) →
+      (sfLoop n st).sf.size = size ∧
+      (∀ j, j < size → vget (sfLoop n st).sf j = G j) ∧
+      (0 ≤ (sfLoop n st).minScore ∧ (sfLoop n st).minScore + 1 < size ∧
+        ∀ j : Nat, (j : Int) < (sfLoop n st).minScore → p j = 0) ∧
+      (0 ≤ (sfLoop n st).maxScore ∧ (sfLoop n st).maxScore < size) := by
+  intro n
+  induction n with
+  | zero =>
+    intro st hsz _ hge _ hmin hmax
+    refine ⟨hsz, fun j hj => hge j (Nat.zero_le _) hj, ⟨hmin.1, hmin.2.1, fun j hj => hmin.2.2 j (Nat.zero_le _) hj⟩, hmax⟩
+  | succ n ih =>
+    intro st hsz hn hge hlt hmin hmax
+    rw [sfLoop_succ]
+    have hnsz : n < st.sf.size := by omega
+    have hp0 : vget st.sf n = p n := hlt n (by omega)
+    have hp1 : vget st.sf (n + 1) = G (n + 1) := hge (n + 1) (le_refl _) (by omega)
+    apply ih (sfStep n st)
+    · show (vset st.sf n _).size = size
+      rw [size_vset]; exact hsz
+    · omega
+    · intro j hj hjs
+      show vget (vset st.sf n _) j = G j
+      rw [vget_vset _ _ _ _ hnsz]
+      by_cases hjn : j = n
+      · subst hjn
+        rw [if_pos rfl, hp0, hp1, ← hG j]
+        exact min1_of_le_one (hG1 j)
+      · rw [if_neg hjn]
+        exact hge j (by omega) hjs
+    · intro j hj
+      show vget (vset st.sf n _) j = p j
+      rw [vget_vset _ _ _ _ hnsz, if_neg (by omega)]
+      exact hlt j (by omega)
+    · have hms : (sfStep n st).minScore = if 0 < p n then (n : Int) else st.minScore := by
+        show (if Scalar.ltb Scalar.zero (vget st.sf n) = true then Int.ofNat n else st.minScore) = _
+        rw [hp0, ltb_rat, zero_rat]
+        by_cases hpos : 0 < p n
+        · rw [if_pos hpos, if_pos (by simpa using hpos)]; rfl
+        · rw [if_neg hpos, if_neg (by simpa using hpos)]
+      rw [hms]
+      by_cases hpos : 0 < p n
+      · rw [if_pos hpos]
+        refine ⟨by omega, by omega, ?_⟩
+        intro j hj hjn
+        omega
+      · rw [if_neg hpos]
+        refine ⟨hmin.1, hmin.2.1, ?_⟩
+        intro j hj hjm
+        by_cases hjn : j = n
+        · subst hjn; have := hp j; linarith [not_lt.mp hpos]
+        · exact hmin.2.2 j (by omega) hjm
+    · have hmx : (sfStep n st).maxScore =
+          if st.maxScore = 0 ∧ Scalar.ltb Scalar.zero (vget st.sf (n + 1)) = true
+          then (n : Int) + 1 else st.maxScore := rfl
+      rw [hmx]
+      split
+      · refine ⟨by omega, by omega⟩
+      · exact hmax
+
+/-! ### rounding -/
+
+theorem floor_le' (a : Rat) : (a.floor : Rat) ≤ a := Rat.floor_le a
+
+theorem lt_floor_add_one' (a : Rat) : a < (a.floor : Rat) + 1 := by
+  have := Rat.lt_floor_add_one a
+  push_cast at this
+  exact this
+
+theorem ratRound_le (q : Rat) : (ratRound q : Rat) ≤ q + 1 / 2 := by
+  unfold ratRound
+  by_cases h : 0 ≤ q
+  · rw [if_pos h]; exact floor_le' _
+  · rw [if_neg h]
+    have := lt_floor_add_one' (-q + 1 / 2)
+    push_cast
+    linarith
+
+theorem le_ratRound (q : Rat) : q - 1 / 2 ≤ (ratRound q : Rat) := by
+  unfold ratRound
+  by_cases h : 0 ≤ q
+  · rw [if_pos h]
+    have := lt_floor_add_one' (q + 1 / 2)
+    linarith
+  · rw [if_neg h]
+    have := floor_le' (-q + 1 / 2)
+    push_cast
+    linarith
+
+theorem ratRound_mono {a b : Rat} (h : a ≤ b) : ratRound a ≤ ratRound b := by
+  unfold ratRound
+  by_cases ha : 0 ≤ a
+  · have hb : 0 ≤ b := le_trans ha h
+    rw [if_pos ha, if_pos hb]
+    exact Rat.floor_monotone (by linarith)
+  · by_cases hb : 0 ≤ b
+    · rw [if_neg ha, if_pos hb]
+      have h1 : (0 : Int) ≤ (-a + 1 / 2).floor := Rat.le_floor_iff.mpr (by push_cast; linarith [not_le.mp ha])
+      have h2 : (0 : Int) ≤ (b + 1 / 2).floor := Rat.le_floor_iff.mpr (by push_cast; linarith)
+      omega
+    · rw [if_neg ha, if_neg hb]
+      have : (-b + 1 / 2).floor ≤ (-a + 1 / 2).floor := Rat.floor_monotone (by linarith)
+      omega
+
+theorem ratRound_intCast (n : Int) : ratRound (n : Rat) = n := by
+  have h1 := ratRound_le (n : Rat)
+  have h2 := le_ratRound (n : Rat)
+  have h3 : ((ratRound (n : Rat) : Int) : Rat) < ((n + 1 : Int) : Rat) := by push_cast; linarith
+  have h4 : ((n - 1 : Int) : Rat) < ((ratRound (n : Rat) : Int) : Rat) := by push_cast; linarith
+  have h3' : ratRound (n : Rat) < n + 1 := by exact_mod_cast h3
+  have h4' : n - 1 < ratRound (n : Rat) := by exact_mod_cast h4
+  omega
+
+theorem clampI32_of_mem {i : Int} (h1 : I32_MIN ≤ i) (h2 : i ≤ I32_MAX) : clampI32 i = i := by
+  unfold clampI32
+  rw [if_neg (by omega), if_neg (by omega)]
+
+theorem clampI32_mono {a b : Int} (h : a ≤ b) : clampI32 a ≤ clampI32 b := by
+  unfold clampI32 I32_MIN I32_MAX
+  split <;> split <;> (try split) <;> (try split) <;> omega
+
 end LMV.Dist
